@@ -315,7 +315,11 @@ def currently_exiting_context(frame: types.FrameType) -> Optional[ExitingContext
                 # to point to LOAD_CONST (cpython convention)
                 offs -= 2
     else:  # 3.11 and later
-        # Async calls have lasti pointing at YIELD_VALUE or SEND
+        # Async calls have lasti pointing at YIELD_VALUE or SEND. If the
+        # frame is running (we're being called from inside the __aexit__),
+        # then on 3.12+ lasti points at the CACHE entry that follows SEND.
+        while code[offs] == op["CACHE"] and offs >= 2:
+            offs -= 2
         if code[offs] == op["YIELD_VALUE"] and offs >= 2:
             offs -= 2
             # SEND can have a CACHE after it in 3.12
